@@ -155,13 +155,17 @@ func c03IsKf(x interface{}) bool {
 	return f != f && k != reflect.Ptr && k != reflect.Map && k != reflect.Slice
 }
 
+// the projection of a value drops its Go type, so values of different types under `any` are kept
+// distinguishable by their contents
+func c03PtrTo[T any](x T) *T { return &x }
+
 // scalar values under `any` (Reflect / zap.Any)
 func (g *c03gen) anyScalar() interface{} {
 	opts := []interface{}{int(-5), int8(-128), int16(1 << 14), int32(math.MinInt32), int64(math.MaxInt64), uint(7), uint8(255), uint16(65535),
 		uint32(math.MaxUint32), uint64(math.MaxUint64), uintptr(1 << 40), float64(1.5), math.NaN(), float32(2.5), complex(1, math.NaN()), complex64(complex(1, 2)),
 		"text", true, []byte("bin"), []byte(nil), time.Duration(-1), time.Unix(0, 42).UTC(), time.Time{},
 		[]int{1, -2}, []string{"a", ""}, []bool(nil), []float64{math.NaN()}, []time.Duration{1, 2}, []uint8{1, 2}, []int32{math.MinInt32},
-		new(int), new(bool), new(string), new(time.Duration), new(float64), new(uint8), new(complex64),
+		c03PtrTo(int(11)), c03PtrTo(true), c03PtrTo("p"), c03PtrTo(time.Duration(12)), c03PtrTo(float64(1.25)), c03PtrTo(uint8(13)), c03PtrTo(complex64(complex(1, 2))),
 		
 		[]error{c03Err{1, 0}, nil}, []zapcore.Field{zap.Int("i", 1), zap.String("s", "x")}}
 	return opts[g.r.Intn(len(opts))]
